@@ -50,6 +50,19 @@ def counters_rule(F, R, rule):
     e5_counters(F, R, M, tfield, lfield, rule=rule)
 
 
+def wrap_rule(F, R, rule):
+    """E5 + E9 under another property's rule name: completions keep being seen after the 16-bit ring indices wrap
+    (wrap-safe counters and the folded completion test)."""
+    counters_rule(F, R, rule)
+    M = model(F)
+    roles = C05.classify_api(C05.queue_api(F, M))
+    cp = [k for k, v in roles.items() if v == 'can_pop']
+    lf = last_used_field(F, M, cp[0]) if cp else None
+    if lf is None:
+        raise Undecided('completion test of the queue not found (%s)' % rule)
+    e9_can_pop(F, R, M, cp[0], lf, rule=rule)
+
+
 def run(F, R):
     M = model(F)
     M.require_rings()
